@@ -9,9 +9,9 @@ spec -> code : TLC emits the required value of every function for every basis fi
                real circulation_along_curve, circulation_along_surface_boundary, flux_across_curve,
                flux_across_surface_boundary, flux_across_surface (six faces of a box) and flux_across_volume_boundary
                with the standard parametrisation, re-timed ones, the reversed one and (circulation) a curved surface
-               (the polynomial graph of Integrals!Graph, on which TLC checks Stokes' theorem in the model), the field also
-               given with its trailing zero components omitted (1 or 2 components, possibly depending on z);
-               spanned by the same curve.  Every result must be a NUMBER free of coordinate / parameter symbols and
+               spanned by the same curve (the polynomial graph of Integrals!Graph, on which TLC checks Stokes' theorem
+               in the model), the field also given with its trailing zero components omitted (1 or 2 components,
+               possibly depending on z).  Every result must be a NUMBER free of coordinate / parameter symbols and
                equal the model's exact value (compared as rational + rational*pi).
                Regions include parameter domains with dependent limits (triangles; tetrahedra with
                flux_across_volume_boundary limits depending on the outer variables), planar problems whose field
